@@ -110,8 +110,16 @@ def rule_R21(ctx, rep, config="c-lib"):
 
 
 def _loop_bounded(f, ix, at):
-    """ix is an induction variable of a loop containing `at' whose values stay inside [0, n_start_sits)"""
-    v = f.inst(strip_int_casts(f, ix))
+    """ix is  counter + c1  for the counter (header phi, step +1 / -1) of a loop containing `at', and the indices of the iterations that run stay inside
+    [0, n_start_sits): an iteration runs while (counter + c2) REL bound"""
+    il = expr.lin(f, ix, 0, 0)
+    if len(il.t) != 1 or list(il.t.values()) != [1]:
+        return False
+    atom = list(il.t.keys())[0]
+    if not atom.startswith("phi#"):
+        return False
+    v = f.insts.get(int(atom[4:]))
+    c1 = il.c
     if v is None or v.op != "phi":
         return False
     for L in f.loops():
@@ -121,20 +129,30 @@ def _loop_bounded(f, ix, at):
         steps = [val for (val, pb) in v.d["incoming"] if pb in L["body"]]
         if len(inits) != 1 or len(steps) != 1:
             continue
-        st = expr.lin(f, steps[0], 0, 0)
-        if len(st.t) != 1 or list(st.t.values()) != [1] or st.c not in (1, -1):
+        st = expr.lin(f, steps[0], 0, 0).add(il, -1).add(expr.Lin(c1))
+        if not st.is_const() or st.c not in (1, -1):
             continue
         t = f.bmap[L["header"]].term
         c = f.inst(t.ops[0]) if (t is not None and len(t.ops) == 3) else None
         if c is None or c.op != "icmp":
             continue
-        if st.c == 1 and const_int(inits[0]) == 0 and c.d["pred"] in ("slt", "ult"):
+        stay_true = t.ops[2]["v"] in L["body"]
+        pred = c.d["pred"]
+        if not stay_true:
+            pred = {"slt": "sge", "sle": "sgt", "sgt": "sle", "sge": "slt", "ult": "uge", "uge": "ult"}.get(pred, pred)
+        xl = expr.lin(f, c.ops[0], 0, 0)
+        if set(xl.t.keys()) != set([atom]) or xl.t[atom] != 1:
+            continue
+        c2 = xl.c
+        if st.c == 1 and const_int(inits[0]) is not None and pred in ("slt", "ult"):
             b = loaded_from(f, c.ops[1])
-            if b is not None and b.last_field() == "set_core.n_start_sits":
+            # indices  init + c1 .. bound - 1 - c2 + c1
+            if b is not None and b.last_field() == "set_core.n_start_sits" and const_int(inits[0]) + c1 >= 0 and c1 - c2 <= 0:
                 return True
-        if st.c == -1 and c.d["pred"] in ("sge",) and const_int(c.ops[1]) == 0:
-            il = expr.lin(f, inits[0], 0, 1)
-            if il.c == -1 and len(il.t) == 1 and list(il.t.keys())[0].endswith("set_core.n_start_sits]") and list(il.t.values()) == [1]:
+        if st.c == -1 and pred in ("sge", "sgt") and const_int(c.ops[1]) is not None:
+            lo = const_int(c.ops[1]) + (1 if pred == "sgt" else 0) - c2 + c1
+            initl = expr.lin(f, inits[0], 0, 1)
+            if len(initl.t) == 1 and list(initl.t.keys())[0].endswith("set_core.n_start_sits]") and list(initl.t.values()) == [1] and initl.c + c1 <= -1 and lo >= 0:
                 return True
     return False
 
